@@ -10,7 +10,7 @@
 #include "vx.h"
 
 typedef struct { int fam; int r, c; uint64_t bits; int b, J, dens, aux; } rk_spec;
-enum { F_TINY, F_LIFT, F_ECH, F_RK, F_BND, F_REC };
+enum { F_TINY, F_LIFT, F_ECH, F_RK, F_BND, F_REC, F_HYB };
 
 static const char *rk_str(const rk_spec *s, char *buf, size_t n) {
   switch (s->fam) {
@@ -19,6 +19,7 @@ static const char *rk_str(const rk_spec *s, char *buf, size_t n) {
   case F_ECH: snprintf(buf, n, "ECH(n=%d,piv=0x%llx,extra=%d,scr=%d)", s->c, (unsigned long long)s->bits, s->aux, s->dens); break;
   case F_RK: snprintf(buf, n, "RK(%dx%d,rank=%d)", s->r, s->c, s->aux); break;
   case F_BND: snprintf(buf, n, "BND(%dx%d,pat=%d)", s->r, s->c, s->aux); break;
+  case F_HYB: snprintf(buf, n, "HYB(sparse=%d,dense=%dx%d,dens=%d,gap=%d)", s->aux, s->r - s->aux, s->c - s->aux, s->dens, s->b); break;
   case F_REC: snprintf(buf, n, "REC(%dx%d,n1=%d,r1=%d,r2=%d,place=%d)", s->r, s->c, s->aux, s->b, s->J, s->dens); break;
   }
   return buf;
@@ -63,6 +64,16 @@ static pm *rk_build(const rk_spec *s) {
   case F_BND: {
     static const pat P[] = {{P_Z, 0, 0}, {P_O, 0, 0}, {P_ID, 0, 0}, {P_SHID, 1, 0}, {P_SHID, 64, 0}, {P_PR, 0, 41}, {P_PR, 1, 42}, {P_PR, 2, 43}, {P_ANTI, 0, 0}, {P_CHK, 0, 0}, {P_WORDSTRIPE, 0, 0}, {P_WORDSTRIPE, 1, 0}, {P_COLSTRIPE, 0, 0}};
     return pm_pat(s->r, s->c, P[s->aux]); }
+  case F_HYB: {
+    /* sparse start, dense end: [[I_s (with gaps), X], [0, D]].  The sampled density is low at the start and rises once M4RI has
+       consumed the s sparse columns, so the density-switching hybrid changes algorithm in the middle (> 256 columns in). */
+    int sp = s->aux, r = s->r, c = s->c;
+    pm *A = pm_new(r, c);
+    for (int i = 0; i < sp; i++) if (!s->b || (i % s->b) != s->b - 1) pm_set(A, i, i, 1); /* optional pivot gaps in the sparse part */
+    pm *X = pm_pat(r, c - sp, (pat){P_PR, s->dens, 71});
+    for (int i = 0; i < r; i++) for (int j = sp; j < c; j++) pm_set(A, i, j, pm_get(X, i, j - sp));
+    pm_free(X);
+    return A; }
   case F_REC: {
     /* left column half [0,n1) holds r1 independent columns, right half r2 more (unit lower-triangular staircase: leading ones
        at distinct rows, zeros above). place 0: left pivots at the END of the left half (zero columns first), right pivots
@@ -121,6 +132,13 @@ static void rk_enumerate(int fams, int tiny_n, int lift_n, rk_cb cb, void *u) {
       int m = D[a], n = D[b], mn = m < n ? m : n; int rs[6] = {0, 1, 2, mn / 2, mn - 1, mn};
       for (int i = 0; i < 6; i++) { int dup = 0; for (int j = 0; j < i; j++) if (rs[j] == rs[i]) dup = 1; if (dup || rs[i] < 0 || rs[i] > mn) continue;
         memset(&s, 0, sizeof s); s.fam = F_RK; s.r = m; s.c = n; s.aux = rs[i]; cb(&s, u); }
+    }
+  }
+  if (fams & (1 << F_HYB)) {
+    static const int SP[] = {258, 300, 330, 420}, DD[][2] = {{40, 70}, {100, 100}, {70, 40}};
+    for (int a = 0; a < 4; a++) for (int b = 0; b < 3; b++) for (int d = 0; d < 3; d += 2) for (int gap = 0; gap < 2; gap++) {
+      if (!vx_tier && (a + b + gap) % 2) continue;
+      memset(&s, 0, sizeof s); s.fam = F_HYB; s.aux = SP[a]; s.r = SP[a] + DD[b][0]; s.c = SP[a] + DD[b][1]; s.dens = d; s.b = gap ? 37 : 0; cb(&s, u);
     }
   }
   if (fams & (1 << F_REC)) {
